@@ -2,6 +2,7 @@ package monitor
 
 import (
 	"fmt"
+	"strings"
 
 	"github.com/willabides/rjson"
 
@@ -99,6 +100,11 @@ func scribbleSpare(v interface{}) {
 	}
 }
 
+type keptErr struct {
+	err  error
+	text string
+}
+
 type kept struct {
 	orig interface{}
 	snap interface{}
@@ -112,9 +118,11 @@ func RunC15(c *Ctx) {
 		n := 20 + r.Intn(50)
 		var vr rjson.ValueReader
 		var keep []kept
+		var keptErrs []keptErr
 		prev := "start"
 		limitThemed := index%30 == 11
 		sizeThemed := index%30 == 17
+		numberThemed := index%30 == 23
 		inbuf := make([]byte, 1<<16)
 		var prevDoc []byte
 		small := []string{"null", " null ", "{}", "[]", "[1]", `{"a":1}`, `{"a":1,"b":[true]}`, `{"a":1,"b":`, `[1,2,`, `"str"`, "12", `{"a":{"b":[]}}`, `[[],[[]]]`, "nul", ""}
@@ -123,6 +131,11 @@ func RunC15(c *Ctx) {
 			fn := r.Intn(3)
 			forced := false
 			switch {
+			case numberThemed:
+				// number-themed history: numbers that need the slow decimal path, overflow failures and
+				// ordinary numbers in turn (seeded change C15r8-m1: a per-reader scratch decimal that is
+				// not emptied on the out-of-range exit, so the next slow-path number is appended to it)
+				doc, dk, forced = numberThemedDoc(r), "number-themed", true
 			case sizeThemed:
 				// size-themed history: containers just below / at / above the widths where hints and
 				// spare parts kick in, empty containers right after wide ones, strings of exactly a power
@@ -180,6 +193,24 @@ func RunC15(c *Ctx) {
 				continue
 			}
 			c.Rec.Evals(2)
+			// a returned error is a returned value too: its text must stay what it was (seeded change
+			// C15r8-m2: an error that formats lazily from the member name, which aliases the input or
+			// the reader's field-name scratch)
+			for ei := range keptErrs {
+				if keptErrs[ei].err.Error() != keptErrs[ei].text {
+					c.Rec.AddViolation(h.Violation{Property: c.Prop, Oracle: "the text of an error returned earlier changed after a later call on the same reader (or after the caller refilled its input buffer)", Entry: "ValueReader." + vrFnNames[fn], Family: "W9", Desc: cs.Desc,
+						InputB64: b64(doc), InputQ: h.Quote(doc), Script: fmt.Sprintf("history=%d call=%d", index, i), Expected: keptErrs[ei].text, Observed: keptErrs[ei].err.Error(),
+						Seed: c.Seed, Tier: c.Tier, Key: fmt.Sprintf("C15|errtext|history=%d|call=%d", index, i)})
+					keptErrs[ei].text = keptErrs[ei].err.Error()
+				}
+			}
+			if e1 != nil {
+				if len(keptErrs) >= 6 {
+					keptErrs = keptErrs[1:]
+				}
+				keptErrs = append(keptErrs, keptErr{e1, strings.Clone(e1.Error())})
+				c.Rec.C("returned_errors_kept_under_watch")
+			}
 			kind := "ok"
 			if e1 != nil {
 				kind = "error"
@@ -306,6 +337,23 @@ func RunC15(c *Ctx) {
 	}
 }
 
+var slowNumbers = []string{"1e400", "-1e999", "5e-324", "4.9406564584124654e-324", "9007199254740993", "9007199254740993.00000001", "2.2250738585072011e-308",
+	"1.00000000000000011102230246251565404236316680908203125", "123456789012345678901234567890", "1.7976931348623159e308", "1.7976931348623157e308", "0.1", "12", "-0", "1e23", "8.5e-320"}
+
+func numberThemedDoc(r *workload.Rand) []byte {
+	a, b := slowNumbers[r.Intn(len(slowNumbers))], slowNumbers[r.Intn(len(slowNumbers))]
+	switch r.Intn(4) {
+	case 0:
+		return []byte("[" + a + "]")
+	case 1:
+		return []byte(`{"n":` + a + `,"m":[` + b + `]}`)
+	case 2:
+		return []byte("[" + a + "," + b + "]")
+	default:
+		return []byte(a)
+	}
+}
+
 var sizeWidths = []int{13, 15, 16, 17, 20, 32, 33, 64, 65, 100, 128, 129}
 
 func wideContainer(b []byte, obj bool, n int) []byte {
@@ -343,7 +391,7 @@ func sizeThemedDoc(r *workload.Rand, i int) []byte {
 	case 0:
 		return wideContainer(nil, obj, sizeWidths[r.Intn(len(sizeWidths))])
 	case 1:
-		return []byte([]string{"{}", "[]", " { } ", "[ ]", `{"e":{}}`, "[[]]", "[{}]"}[r.Intn(7)])
+		return []byte([]string{"{}", "[]", " { } ", "[ ]", `{"e":{}}`, "[[]]", "[{}]", "null", " null", "null"}[r.Intn(10)]) // null right after a wide container: C13r8-m2
 	case 2:
 		return []byte([]string{`{"x":1}`, `[1]`, `{"x":1,"y":[2]}`, `["s"]`, `{"k":"v"}`}[r.Intn(5)])
 	case 3:
